@@ -984,3 +984,30 @@ func dnsZoo() [][]byte {
 		nil)
 	return [][]byte{one, two}
 }
+
+// LongRepeats returns k variants of seed in which a short region (1..32 bytes at a PRNG position) is repeated until the
+// input is 4, 16 or 64 KiB long: thousands of consecutive options / records / chunks, the shape on which a loop that
+// does not advance, or does work proportional to the rest of the input per element, becomes visible to the CPU budget.
+func (c *Corpus) LongRepeats(r *vlib.Rand, seed []byte, k int, maxTotal int) (out [][]byte) {
+	if len(seed) < 2 {
+		return nil
+	}
+	for ; k > 0; k-- {
+		n := []int{1, 2, 3, 4, 6, 8, 12, 16, 20, 24, 32}[r.Intn(11)]
+		i := r.Intn(len(seed))
+		if i+n > len(seed) {
+			n = len(seed) - i
+		}
+		total := []int{4096, 16384, 65536}[r.Intn(3)]
+		if total > maxTotal {
+			total = maxTotal
+		}
+		b := append([]byte{}, seed[:i]...)
+		for len(b)+n+len(seed)-i-n <= total {
+			b = append(b, seed[i:i+n]...)
+		}
+		b = append(b, seed[i+n:]...)
+		out = append(out, b)
+	}
+	return
+}
